@@ -204,6 +204,26 @@ def prune(cons, integer=True, cap=60):
     return out
 
 
+def _pair_sums(cons, limit=40):
+    """Sums of two constraints over at most two atoms each that cancel an
+    atom: candidates for a join, each still checked against both sides."""
+    out = []
+    two = [c for c in cons if 1 <= len(c.p.atoms()) <= 2]
+    for i, c1 in enumerate(two):
+        a1 = set(c1.p.atoms())
+        for c2 in two[i + 1:]:
+            a2 = set(c2.p.atoms())
+            if not (a1 & a2):
+                continue
+            s_ = c1.p + c2.p
+            n_ = len(s_.atoms())
+            if n_ < len(a1 | a2) and 1 <= n_ <= 2:
+                out.append(Con(s_, c1.strict or c2.strict))
+                if len(out) >= limit:
+                    return out
+    return out
+
+
 class Interp(object):
     def __init__(self, fn, entry_cons=(), candidates=(), inline_props=None,
                  pure_self_methods=(), pure_calls=(), integer=True,
@@ -703,6 +723,10 @@ class Interp(object):
                 continue
             pool.append(le(1, Poly.atom(x)))
             pool.append(le(0, Poly.atom(x)))
+        # one step of transitivity on each side (x <= t on one path through
+        # a temporary, x <= t directly on the other: neither side *states*
+        # the bound the two share)
+        pool = dedupe(pool + _pair_sums(a) + _pair_sums(b))
         for c in pool:
             r = c.row(self.integer)
             if (r in ka or self.entails_state(a, c)) and \
